@@ -104,6 +104,8 @@ fn amount_word(i: u8) -> [u8; 32] {
         3 => { w[7] = 1; w[31] = 5; }            // 2^192 + 5
         4 => w[0] = 0x80,                        // 2^255
         5 => { w[8] = 1; w[31] = 7; }            // 2^184 + 7
+        7 => { w[7] = 1; w[15] = 1; w[30] = 0x03; w[31] = 0xe8; } // 2^192 + 2^128 + 1000: equal upper limbs
+        8 => { w[0..16].copy_from_slice(&[0xff; 16]); w[31] = 9; } // all upper bits set, low part 9
         _ => w = [0xff; 32],
     }
     w
@@ -274,7 +276,7 @@ impl C04 {
         v.push(Dev::InnerTagDirty);
         for t in [2u8, 3, 4, 5, 255] { v.push(Dev::InnerType(t)); }
         for g in 0..3u8 { v.push(Dev::GarbageAddress(g)); }
-        for a in 0..7u8 { v.push(Dev::Amount(a)); }
+        for a in 0..9u8 { v.push(Dev::Amount(a)); }
         for k in 0..24u8 { v.push(Dev::TruncateAtWord(k)); }
         for t in 0..3u8 { v.push(Dev::Trailing(t)); }
         for t in 0..3u8 { v.push(Dev::InnerTrailing(t)); }
